@@ -12,9 +12,9 @@ import (
 
 func init() {
 	registry["C14"].Rules = append(registry["C14"].Rules,
-		Rule{Name: "C14-R7-no-integer-wrap", Doc: "every + − × on positions, offsets and sizes in the parse fragment is proven not to wrap (|result| ≤ 2^60 given buffers ≤ 2^40 bytes): a size read from the text is bounded before it takes part in arithmetic, so no guard can be defeated by overflow", Run: c14NoWrap})
+		Rule{Name: "C14-R7-no-integer-wrap", Doc: "every + − × on positions, offsets and sizes in the parse fragment is proven not to wrap (64-bit targets: |result| ≤ 2^60 given buffers ≤ 2^40 bytes; 32-bit targets, thorough tier: |result| ≤ 2^31−1 given buffers ≤ 2^28 bytes): a size read from the text is bounded before it takes part in arithmetic, so no guard can be defeated by overflow", Run: c14NoWrap})
 	registry["C02"].Rules = append(registry["C02"].Rules,
-		Rule{Name: "C02-R7-no-integer-wrap", Doc: "every + − × on positions and lengths in the decode fragment is proven not to wrap (|result| ≤ 2^60 given buffers ≤ 2^40 bytes)", Run: c02NoWrap})
+		Rule{Name: "C02-R7-no-integer-wrap", Doc: "every + − × on positions and lengths in the decode fragment is proven not to wrap (64-bit targets: |result| ≤ 2^60 given buffers ≤ 2^40 bytes; 32-bit targets, thorough tier: |result| ≤ 2^31−1 given buffers ≤ 2^28 bytes)", Run: c02NoWrap})
 }
 
 func onlyWrap(r *Run, rule string, name string, floor int) {
@@ -24,12 +24,6 @@ func onlyWrap(r *Run, rule string, name string, floor int) {
 		return
 	}
 	e, res := br.e, br.res
-	if r.W.GOARCH == "386" || r.W.GOARCH == "arm" {
-		// the proof is carried out for 64-bit int only; on a 32-bit target int arithmetic near
-		// 2^31 is within reach of a 2 GiB input and is not decided here (DESIGN.md §6)
-		r.Trivial(rule, "32-bit target", 0, "not decided on %s/%s: the no-wrap argument is for 64-bit int", r.W.GOOS, r.W.GOARCH)
-		return
-	}
 	n := 0
 	seen := map[string]int{}
 	for i, o := range res.obs {
